@@ -49,6 +49,8 @@ class _TimePatternHelper:
                     # If the next token isn't the decimal separator, we
                     # assume it's part of the next token in the pattern
                     if not value_cursor._match("."):
+                        # No decimal separator means no fraction: zero, not whatever the template value had.
+                        setter(bucket, 0)
                         return None
 
                     # If there *was* a decimal separator, we should definitely have a number.
@@ -102,6 +104,8 @@ class _TimePatternHelper:
                     # If the next token isn't a dot or comma, we assume
                     # it's part of the next token in the pattern
                     if not value_cursor._match(".") and not value_cursor._match(","):
+                        # No decimal separator means no fraction: zero, not whatever the template value had.
+                        setter(bucket, 0)
                         return None
 
                     # If there *was* a decimal separator, we should definitely have a number.
